@@ -51,6 +51,8 @@ func TestNLE(t *testing.T) {
 			err = runBreaker(t, rep, rng, n)
 		case "nats":
 			err = runNATS(rep, rng, n, thorough)
+		case "natsel":
+			err = runNATSElections(rep, rng, n, thorough)
 		case "race":
 			err = runRace(rep, rng, n, thorough)
 		case "stress":
